@@ -1,8 +1,5 @@
 // ---- specs/lifecycle.rs: contracts on payment_lifecycle / resolve (src/htlc_manager.rs) --------
 
-pub open spec fn fee_rhs(base: u32, ppm: u32, amount: u64) -> int {
-    amount as int + base as int + (amount as int * ppm as int) / 1_000_000
-}
 
 /// The world constants are those of this lifecycle's trampoline info and parameters.
 pub open spec fn consts_match<B: BlockProvider, N: NotificationService, P: PaymentProvider, S: Datastore>(
@@ -37,15 +34,6 @@ pub open spec fn consts_match<B: BlockProvider, N: NotificationService, P: Payme
 //@ returns r
 //@ ensures#enc
       r@ == encode_spec(*self)
-//@ end
-
-//@ fn htlc_manager::PaymentState::resolve
-//@ ensures#every_listener_gets_resp [C07,C06]
-      forall|i: int| 0 <= i < old(self).htlcs@.len() ==> (#[trigger] old(self).htlcs@[i]).fate() == Some(resp)
-//@ ensures#emptied [C07,C06]
-      final(self).htlcs@.len() == 0
-//@ ensures#late_htlcs_get_the_same [C07]
-      final(self).resolution == Some(resp)
 //@ end
 
 //@ fn htlc_manager::resolve
